@@ -185,6 +185,9 @@ class Fn:
             v = op.get("val")
             if v is None and "bytes" in op:
                 v = bytes(op["bytes"])
+                bt = op["ty"].lstrip("&").replace("'static ", "").strip()
+                if re.fullmatch(r"[ui](8|16|32|64|128|size)", bt) and len(v) in (1, 2, 4, 8, 16):
+                    v = int.from_bytes(v, "little", signed=bt.startswith("i"))  # promoted &CONST
             return ("const", op.get("name"), v, op["ty"])
         if k in ("copy", "move"):
             return self.expr_place(op["place"], depth, stack)
@@ -199,13 +202,19 @@ class Fn:
         or branch-merged variables) are *leaves* ('phi', l, name); their alternatives are available
         through phi_alts().  Every def-use cycle passes through such a local, so expansion is a
         finite DAG walk and results can be cached unconditionally."""
-        if 1 <= l <= self.argc:
-            return ("arg", l, self.names.get(l, "_%d" % l))
         if l in self._expr_cache:
             return self._expr_cache[l]
         ds = self.defs().get(l, [])
+        # writes *through* a pointer local ((*_5).f = ..) do not redefine the local itself
         whole = [d for d in ds if d[0] == "call" or not d[3]["place"]["p"]]
-        partial = [d for d in ds if d[0] == "assign" and d[3]["place"]["p"]]
+        partial = [d for d in ds if d[0] == "assign" and d[3]["place"]["p"] and d[3]["place"]["p"][0] != "deref"]
+        if 1 <= l <= self.argc:
+            if whole or partial:
+                r = ("phi", l, self.names.get(l))  # `mut` parameter reassigned in the body
+            else:
+                r = ("arg", l, self.names.get(l, "_%d" % l))
+            self._expr_cache[l] = r
+            return r
         if not ds:
             r = ("local", l, self.names.get(l))
         elif partial:
@@ -232,6 +241,8 @@ class Fn:
     def phi_alts(self, l):
         """alternatives of a multi-definition local, each with other phis left as leaves"""
         out = []
+        if 1 <= l <= self.argc:
+            out.append(("arg", l, self.names.get(l, "_%d" % l)))
         for d in self.defs().get(l, []):
             if d[0] == "call":
                 out.append(self.expr_call(d[2]))
@@ -255,9 +266,9 @@ class Fn:
         if k == "cast":
             return ("cast", rv["kind"], self.expr_operand(rv["op"], depth, stack), rv["from"], rv["ty"])
         if k == "bin":
-            return ("bin", rv["op"], self.expr_operand(rv["a"], depth, stack), self.expr_operand(rv["b"], depth, stack))
+            return ("bin", rv["op"], self.expr_operand(rv["a"], depth, stack), self.expr_operand(rv["b"], depth, stack), rv.get("ty"))
         if k == "un":
-            return ("un", rv["op"], self.expr_operand(rv["a"], depth, stack))
+            return ("un", rv["op"], self.expr_operand(rv["a"], depth, stack), rv.get("ty"))
         if k == "discr":
             return ("discr", self.expr_place(rv["place"], depth, stack))
         if k == "agg":
@@ -332,7 +343,7 @@ def apply_proj(fn, base, projs, depth=0, stack=()):
                 continue
             if s[0] == "bin" and s[1].endswith("WithOverflow"):
                 if name == "0":
-                    cur = ("bin", s[1][: -len("WithOverflow")], s[2], s[3])
+                    cur = ("bin", s[1][: -len("WithOverflow")], s[2], s[3], s[4] if len(s) > 4 else None)
                 else:
                     cur = ("overflowed", s)
                 continue
@@ -415,7 +426,11 @@ def show(e, depth=0):
     if k == "un":
         return "%s(%s)" % (e[1], show(e[2], depth + 1))
     if k == "cast":
-        return "(%s as %s)" % (show(e[2], depth + 1), e[4])
+        return "(%s as %s)" % (show(e[2] if len(e) == 5 else e[1], depth + 1), e[-1])
+    if k == "discr":
+        return "discr(%s)" % show(e[1], depth + 1)
+    if k in ("switchval", "switchnot"):
+        return "%s(%s)" % (k, show(e[1], depth + 1))
     if k == "call":
         return "%s(%s)" % (e[1].split("::")[-1] if not e[1].startswith("<") else e[1], ", ".join(show(a, depth + 1) for a in e[2]))
     if k == "phi":
@@ -640,3 +655,173 @@ def fields_only(el):
 
 class MissingAnchor(Exception):
     pass
+
+
+# ---------------------------------------------------------------- patterns ----
+class W:
+    """pattern wildcard; same name must bind equal expressions"""
+    def __init__(self, name=None, pred=None):
+        self.name, self.pred = name, pred
+
+    def __repr__(self):
+        return "?%s" % (self.name or "")
+
+
+def val(e):
+    """value-level normal form: refs/derefs dropped, operator types dropped, casts between
+    integer types of non-decreasing width kept as ('cast', e, to)"""
+    if not isinstance(e, tuple) or not e:
+        return e
+    k = e[0]
+    if k == "ref":
+        return val(e[1])
+    if k == "path":
+        root, el = path_fields(e)
+        root = val(root)
+        el = tuple(tuple(val(y) if isinstance(y, tuple) else y for y in x) if isinstance(x, tuple) else x for x in el)
+        if not el:
+            return root
+        if isinstance(root, tuple) and root and root[0] == "path":
+            return ("path", root[1], root[2] + el)
+        return ("path", root, el)
+    if k == "bin":
+        return ("bin", e[1], val(e[2]), val(e[3]))
+    if k == "un":
+        return ("un", e[1], val(e[2]))
+    if k == "cast":
+        return ("cast", val(e[2]), e[4])
+    if k == "const":
+        return ("const", e[1], e[2])
+    if k == "discr":
+        return ("discr", val(e[1]))
+    if k == "call":
+        return ("call", e[1], tuple(val(a) for a in e[2]))
+    if k == "adt":
+        return ("adt", e[1], e[2], e[3], tuple(val(a) for a in e[4]))
+    if k in ("tuple", "array"):
+        return (k, tuple(val(a) for a in e[1]))
+    return e
+
+
+def unify(p, e, b=None):
+    """match pattern p against (val-normalised) expression e; returns bindings dict or None"""
+    if b is None:
+        b = {}
+    if isinstance(p, W):
+        if p.pred is not None and not p.pred(e):
+            return None
+        if p.name is None:
+            return b
+        if p.name in b:
+            return b if b[p.name] == e else None
+        b = dict(b)
+        b[p.name] = e
+        return b
+    if isinstance(p, tuple):
+        if not isinstance(e, tuple) or len(p) != len(e):
+            return None
+        for x, y in zip(p, e):
+            b = unify(x, y, b)
+            if b is None:
+                return None
+        return b
+    return b if p == e else None
+
+
+def find_sub(e, p, b=None):
+    """first sub-expression of e matching p (pre-order); returns (sub, bindings) or None"""
+    r = unify(p, e, b)
+    if r is not None:
+        return e, r
+    if isinstance(e, tuple):
+        for x in e:
+            if isinstance(x, tuple):
+                r = find_sub(x, p, b)
+                if r is not None:
+                    return r
+    return None
+
+
+class P:
+    @staticmethod
+    def arg(name):
+        return ("arg", W(), name)
+
+    @staticmethod
+    def field(root, *names):
+        return ("path", root, tuple(names))
+
+    @staticmethod
+    def self_(*names):
+        return ("path", ("arg", 1, "self"), tuple(names))
+
+    @staticmethod
+    def call(name, *args):
+        return ("call", name, tuple(args))
+
+    @staticmethod
+    def bin(op, a, b):
+        return ("bin", op, a, b)
+
+    @staticmethod
+    def const(v):
+        return ("const", W(), v)
+
+    @staticmethod
+    def named(name, v=None):
+        return ("const", name, W() if v is None else v)
+
+    @staticmethod
+    def cast(a, to):
+        return ("cast", a, to)
+
+
+def guards_at(fn, b):
+    """[(cond value-expr, truth)] for boolean branch edges / passed asserts dominating block b,
+    plus ('discr', place value-expr, variant value) for integer switches"""
+    out = []
+    dom = fn.dominators().get(b, set())
+    for s in sorted(dom):
+        if s == b:
+            continue
+        t = fn.blocks[s]["term"]
+        if t["k"] == "switch":
+            discr = val(fn.expr_operand(t["op"]))
+            for v, tgt in t["targets"]:
+                if tgt != t["otherwise"] and (tgt == b or fn.edge_dominates(s, tgt, b)):
+                    if t["opty"] == "bool":
+                        out.append((discr, bool(v)))
+                    else:
+                        out.append((("switchval", discr), v))
+            o = t["otherwise"]
+            if all(o != tgt for _, tgt in t["targets"]) and (o == b or fn.edge_dominates(s, o, b)):
+                vals = [v for v, _ in t["targets"]]
+                if t["opty"] == "bool" and len(vals) == 1:
+                    out.append((discr, not bool(vals[0])))
+                else:
+                    out.append((("switchnot", discr), tuple(vals)))
+        elif t["k"] == "assert":
+            out.append((val(fn.expr_operand(t["cond"])), bool(t["expected"])))
+    # normalise Not
+    norm = []
+    for c, tr in out:
+        while isinstance(c, tuple) and c and c[0] == "un" and c[1] == "Not":
+            c, tr = c[2], (not tr)
+        norm.append((c, tr))
+    return norm
+
+
+def local_defs_with_guards(fn, l):
+    """for a multi-def local: [(block, guards, value-expr)] per whole definition"""
+    out = []
+    for d in fn.defs().get(l, []):
+        if d[0] == "call":
+            out.append((d[1], guards_at(fn, d[1]), val(fn.expr_call(d[2]))))
+        elif not d[3]["place"]["p"]:
+            out.append((d[1], guards_at(fn, d[1]), val(fn.expr_rvalue(d[3]["rv"]))))
+    return out
+
+
+def ret_alternatives(fn):
+    """[(block, guards, value-expr)] of the return place (single def => one entry)"""
+    return local_defs_with_guards(fn, 0)
